@@ -74,7 +74,7 @@ body_lines = st.one_of(
 @st.composite
 def _cases(draw, ctx):
     c = draw(G.chart_specs(max_segments=4, max_tracks=ctx.pick(5, 10), max_notes=6, max_events=4,
-                           max_ts=2, max_anchors=1))
+                           max_ts=2, max_anchors=1, with_layout=False))
     spec = add_markers(c["spec"], c["max_tick"])
     names = [n for n, _ in S.sections_of(spec)]
     order = draw(st.permutations(names))
